@@ -452,8 +452,8 @@ def canonMat : Option (PemMap Body) → Mat
   | none => none
   | some m => some (canonMap m)
 
-def pemFile (c k : Option Nat) : Body := ⟨[], ⟨c, k⟩⟩
-def textFile (s : String) : Body := ⟨s.toList, ⟨none, none⟩⟩
+def pemFile (c k : Option Nat) : Body := ⟨[], ⟨c, k, 0⟩⟩
+def textFile (s : String) : Body := ⟨s.toList, ⟨none, none, 0⟩⟩
 
 /-- the working set of the witnesses: one certificate, loaded from `S/a.pem` -/
 def wsURL : Name := "S/list".toList
